@@ -55,6 +55,13 @@ Clause decided: "nothing the source states is lost on the way through the IR".
      declaration's and ``v.type.length`` -- otherwise ``y(2*n)`` in ``REAL,
      DIMENSION(n) :: x, y(2*n)`` or ``b*10`` in ``CHARACTER(LEN=5) :: a, b*10`` is
      replaced by the common specification.
+ R11 slot coverage: a frontend handler that picks children of its parse-tree node
+     by position (``o.items[k]`` / ``o.children[k]``) reads *every* position the
+     grammar class produces (arity of the tuples returned by its ``match``, read
+     from the fparser source), unless it iterates over all of them; positions
+     that only hold a construct name or punctuation are listed with the reason.
+     An unread position is an operand silently dropped (``p(0:) => a`` parsed as
+     ``p => a``: the bounds specification sits in position 1).
 Not decided: that a consumed operand is rendered correctly beyond R4 (C06 covers
 expression printing in general), run-time equality.
 """
@@ -125,6 +132,83 @@ def _grammar_use_names(m):
                     if val is not NOFOLD:
                         out[c.name] = list(val)
     return out
+
+
+# (grammar class, position) that a handler may leave unread, with the reason
+SLOT_EXEMPT = {
+    ('Case_Stmt', 1): 'optional construct name repeated on the CASE line',
+    ('Else_If_Stmt', 1): 'optional construct name repeated on the ELSE IF line',
+    ('Type_Guard_Stmt', 2): 'optional construct name repeated on the TYPE IS line',
+    ('Procedure_Stmt', 1): 'the MODULE keyword / `::` punctuation', ('Procedure_Stmt', 2): 'the MODULE keyword / `::` punctuation',
+    ('Specific_Binding', 2): '`::` punctuation',
+    ('Loop_Control', 2): 'DO CONCURRENT control: not supported by the frontend (fails loudly)',
+    ('Loop_Control', 3): 'DO CONCURRENT control: not supported by the frontend (fails loudly)',
+    ('Assignment_Stmt', 1): 'the `=` token',
+}
+
+
+def _grammar_arity(m):
+    """class name -> largest arity of the tuples returned by its `match` (Fortran2003 / Fortran2008 sources)"""
+    import os
+    out = {}
+    for modname in ('fparser.two.Fortran2003', 'fparser.two.Fortran2008'):
+        mod = m.module(modname)
+        if mod is None:
+            continue
+        mods = [mod]
+        if mod.is_pkg:
+            pdir = os.path.dirname(mod.path)
+            for f in sorted(os.listdir(pdir)):
+                if f.endswith('.py') and f != '__init__.py':
+                    sub = m.module(f'{modname}.{f[:-3]}')
+                    if sub:
+                        mods.append(sub)
+        for mm in mods:
+            for c in mm.classes.values():
+                mt = c.members.get('match')
+                if mt is None or mt.kind != 'func':
+                    continue
+                ar = [len(r.value.elts) for r in ast.walk(mt.node) if isinstance(r, ast.Return) and isinstance(r.value, ast.Tuple)]
+                if ar:
+                    out[c.name] = max(ar)
+    return out
+
+
+def run_r11(ctx):
+    import re
+    m = ctx.model
+    ctx.rule('R11', 'FParser2IR handlers indexing o.items[k] / o.children[k] read every position of the grammar class (arity from its match), '
+                    'modulo the exemption table')
+    arity = _grammar_arity(m)
+    ctx.floor('R11', 'grammar classes with a tuple-returning match', len(arity), 100)
+    P = m.get_class(FE, 'FParser2IR')
+    n = 0
+    for name in sorted(P.members):
+        if not name.startswith('visit_'):
+            continue
+        K = name[6:]
+        a = arity.get(K)
+        f = m.member_function(P, name)
+        if not a or f is None:
+            continue
+        par = f.node.args.args[1].arg if len(f.node.args.args) > 1 else None
+        txt = ast.unparse(f.node)
+        if re.search(rf'for \w+ in {par}\.(items|children)\b|{par}\.(items|children)\)|\*{par}\.(items|children)|{par}\.(items|children)\[\d*:', txt):
+            continue
+        idx = {int(x.group(2)) for x in re.finditer(rf'{par}\.(items|children)\[(\d+)\]', txt)}
+        if not idx:
+            continue
+        n += 1
+        miss = [i for i in range(a) if i not in idx and (K, i) not in SLOT_EXEMPT]
+        inst = f'{name}:{K}'
+        if miss:
+            ctx.violation('R11', f'FParser2IR.{name}:unread-position-{miss[0]}', f.where,
+                          f'{f.qualname} reads positions {sorted(idx)} of a {K} node, whose match produces {a} positions: position {miss} is '
+                          f'never consulted, so what the source states there is dropped from the IR (p(0:) => a became p => a while the bounds '
+                          f'specification of a Pointer_Assignment_Stmt sat unread in position 1)', instance=inst)
+        else:
+            ctx.judge('R11', inst, facts={'arity': a, 'read': sorted(idx)})
+    ctx.floor('R11', 'handlers indexing their node by position', n, 40)
 
 
 def run(ctx):
@@ -355,6 +439,7 @@ def _r5(ctx):
             ctx.judge('R5', inst, facts={'marker': repr(marker), 'cases_evaluated': 14})
     ctx.floor('R5', 'default-extraction blocks', n5, 2)
     run_r678(ctx)
+    run_r11(ctx)
 
 
 EXPR_ATTRS = {'length', 'data_source', 'status_var', 'initial'}
@@ -525,6 +610,9 @@ def run_r678(ctx):
 
 
 MUTANTS = [
+    Mutant('pointer-bounds-unread', FE,
+           "        if ptr and o.items[1] is not None:\n            # Bounds specification or bounds remapping of the pointer object,\n            # e.g., ``p(0:) => a`` or ``q(1:2, 1:5) => a``\n            lhs = lhs.clone(dimensions=as_tuple(self.visit(o.items[1], **kwargs)))\n",
+           "", expect=('R11', 'visit_Pointer_Assignment_Stmt')),
     Mutant('common-shape-overrides-entity', 'loki/frontend/fparser.py',
            "                v if getattr(v, 'dimensions', None) else v.clone(dimensions=_type.shape) for v in variables\n", "                v.clone(dimensions=_type.shape) for v in variables\n",
            expect=('R10', 'common-shape-overrides-entity')),
